@@ -24,7 +24,7 @@ EXPLANATION = (
     "namespace registry; visit_Name translates whatever AST the name is bound to; R3 the plug-in rewriter visits children "
     "first and matches by name for both call styles, on a copy of the method table; R4 metadata is extracted and processed "
     "before any other pass looks at the tree and method-style operators are normalised before the name-keyed passes; R5 the "
-    "tuple and list handlers are the same code (a Python tuple arrives as a list after a qastle round trip)."
+    "tuple and list handlers are the same code (a Python tuple arrives as a list after a qastle round trip); R6 tuple- and list-valued metadata fields expand alike, and job-script ordering uses the dependencies merged over all declarations of a block."
 )
 ASSUMPTIONS = [
     "func_adl's stack_frame/argument_stack implement innermost-first lookup and drop a frame when the with block exits",
@@ -94,7 +94,7 @@ def check(col: Collector, tier: str):
         n_paths += 1
         if "lookup_name" not in names:
             ok = False
-        if "get_toplevel_ns" in names and names.index("get_toplevel_ns") < names.index("lookup_name"):
+        elif "get_toplevel_ns" in names and names.index("get_toplevel_ns") < names.index("lookup_name"):
             ok = False
         # if the stack lookup succeeded the path must return it without consulting the registry
         conds = [(src(e.node), e.taken) for e in p.events if e.kind == "cond"]
@@ -123,6 +123,18 @@ def check(col: Collector, tier: str):
     col.floor("C08.R4", 2)
     for o in sub.obs:
         col.add("C08.R4", o.construct, o.detail, o.ok, o.msg, o.loc)
+
+    # ---------------------------------------------------------------- R6 metadata values: tuple ~ list, merged job-script dependencies
+    from sa.props.c14 import check_ib_fetch_verbatim
+    col.floor("C08.R6", 2)
+    check_ib_fetch_verbatim(col, "C08.R6", repo)
+    from sa.props import c15
+    sub15 = Collector("C08")
+    c15.check(sub15, tier)
+    for o in sub15.obs:
+        if o.detail in ("guard:dependencies-subset-of-seen", "every-copy-merges-its-dependencies"):
+            col.add("C08.R6", o.construct, o.detail, o.ok, o.msg + " (the same block may be declared at several places along the chain: "
+                    "the order of emission must not depend on which declaration is met first)", o.loc)
 
     # ---------------------------------------------------------------- R5 tuple ~ list
     col.floor("C08.R5", 4)
